@@ -12,7 +12,7 @@ U = ['src/bitint.c', 'src/scale.c', 'src/instant.c']
 UW = {'bi383_next.*': 1, 'ass_bi383.*': 1, 'ass_int383.*': 3, 'collect.*': 4, 'memcpy.*': 73, 'memmove.*': 4, 'memset.*': 25, 'fill_yly_eastr.*': 3, 'shift.*': 5, 'harness.*': 12}
 def ob(name, defs, **kw):
     o = dict(name=name, src='h_ext.c', defs=defs + ['ORC_FAST'], units=U, incl=['src/evrrul.c'], replay_units='all', unwind=3, unwindset=dict(UW),
-             solver='kissat', timeout=600, mem_gb=6, checks=['--bounds-check', '--div-by-zero-check', '--undefined-shift-check'],
+             solver='kissat', slice_formula=True, timeout=600, mem_gb=6, checks=['--bounds-check', '--div-by-zero-check', '--undefined-shift-check'],
              allow_nobody=[], stubs=['word-wise memcpy/memmove/memset (harness/common/libc_models.h)'], sym='year, candidate month/day, shift amount and flags')
     o.update(kw)
     return o
